@@ -866,7 +866,19 @@ class SyncObj(object):
             funcID, args, newKwArgs = command
             kwargs.update(newKwArgs)
 
-        return self._idToMethod[funcID](*args, **kwargs)
+        try:
+            return self._idToMethod[funcID](*args, **kwargs)
+        except Exception as e:
+            # The command is committed: every replica executes it at this position and
+            # every replica sees the same exception. Letting it escape left lastApplied
+            # where it was, so the entry was retried on every tick forever, its callback
+            # (already taken off the waiting list) never fired, and a leader stopped
+            # sending append_entries. Treat the exception as the outcome of the command:
+            # it is handed to the callback as the result, with FAIL_REASON.SUCCESS because
+            # every other reason tells the caller that the command was NOT applied (and may
+            # be retried), which is not the case here.
+            logger.exception('replicated method raised an exception')
+            return e
 
     def __onMessageReceived(self, node, message):
 
